@@ -185,6 +185,20 @@ def run_case(col, pp, cfg, case):
     col.label(f"outcome:{'returned' if exc is None else type(exc).__name__}")
     if bench.view([solvent_arg], pp) != pre:
         col.report('create_solution/solvent-argument-mutated', {}, case)
+    # the same request made again with the very same argument objects (a caller preparing a series in a loop) is the
+    # same request: same decision, same mixture
+    try:
+        res2 = pp.Container.create_solution(sol_arg, solvent_arg, 'result', **kwargs)
+        exc2 = None
+    except Exception as e:  # noqa
+        res2, exc2 = None, e
+    col.label('repeated-call')
+    if (exc is None) != (exc2 is None):
+        col.report(f"create_solution/repeated-call-decides-differently",
+                   {'first': repr(exc)[:100], 'second': repr(exc2)[:100], 'kw': kw}, case)
+    elif exc is None and bench.view(list(res) if isinstance(res, tuple) else [res], pp) != \
+            bench.view(list(res2) if isinstance(res2, tuple) else [res2], pp):
+        col.report(f"create_solution/repeated-call-differs", {'kw': kw}, case)
     numfams = '+'.join(sorted({c[1] for c in spec.get('conc', [])} | {q[1] for q in spec.get('quant', [])}))
     denfams = '+'.join(sorted({c[2] for c in spec.get('conc', [])}))
     sig_tail = f"{which}/{'container' if container_solvent else 'substance'}-solvent"
